@@ -21,7 +21,7 @@ class Rec:
         self.pruned = dec(res.get("pruned")) if self.ok and res.get("pruned") is not None else None
 
     def inp(self):
-        return dict(game=enc(self.game), prune=self.prune, op=self.op, style=self.meta.get("style"))
+        return dict(game=enc(self.game), game_repr=repr(self.game), prune=self.prune, op=self.op, style=self.meta.get("style"))
 
     def describe(self):
         if self.ok:
